@@ -153,6 +153,10 @@ class ADict:
         self.d = dict(d)
 
 
+class ASet(tuple):
+    """a set of abstract values (which need not be hashable): used for membership tests"""
+
+
 class Evaluator:
     def __init__(self, call_hook=None, max_steps=20000, load_hook=None, store_hook=None):
         self.call_hook = call_hook
@@ -357,6 +361,13 @@ class Evaluator:
             raise Unsupported("truth value of a missing entry")
         raise Unsupported("truth value of %r" % (v,))
 
+    def _as_set(self, items):
+        out = []
+        for x in items:
+            if not any(self.eq(x, y) for y in out):
+                out.append(x)
+        return ASet(out)
+
     def eval(self, e, env):
         self.steps += 1
         if self.steps > self.max_steps:
@@ -377,6 +388,8 @@ class Evaluator:
             return tuple(self.eval(x, env) for x in e.elts)
         if isinstance(e, ast.List):
             return [self.eval(x, env) for x in e.elts]
+        if isinstance(e, ast.Set):
+            return self._as_set([self.eval(x, env) for x in e.elts])
         if isinstance(e, ast.Dict) and all(k is not None for k in e.keys):
             out = {}
             for k, v in zip(e.keys, e.values):
@@ -484,6 +497,10 @@ class Evaluator:
             if not isinstance(a, (AStr, str)) or not isinstance(b, (AStr, str)):
                 return False
             return _streq(self.as_astr(a), self.as_astr(b))
+        if isinstance(a, ASet) or isinstance(b, ASet):
+            if not (isinstance(a, ASet) and isinstance(b, ASet)) or len(a) != len(b):
+                return False
+            return all(any(self.eq(x, y) for y in b) for x in a)
         if isinstance(a, (tuple, list)) and isinstance(b, (tuple, list)):
             if type(a) != type(b) or len(a) != len(b):
                 return False
@@ -731,6 +748,10 @@ class Evaluator:
                 return tuple(args[0]) if f.id == "tuple" else list(args[0])
             if f.id == "bool" and len(args) == 1:
                 return self.truth(args[0])
+            if f.id in ("set", "frozenset") and len(args) == 1 and isinstance(args[0], (list, tuple, dict, ASet)) and not e.keywords:
+                return self._as_set(list(args[0]))
+            if f.id == "frozenset" and not args and not e.keywords:
+                return ASet()
             if f.id in ("list", "dict", "tuple", "set") and not args and not e.keywords:
                 return {"list": list, "dict": dict, "tuple": tuple, "set": set}[f.id]()
             if f.id == "enumerate" and 1 <= len(args) <= 2 and isinstance(args[0], (list, tuple, str)) and not e.keywords:
